@@ -390,6 +390,135 @@ class CandidatesProofTask(T.Task):
         return None
 
 
+class BuildIndexTask(T.Task):
+    """UNBOUNDED (modulo the grouping meta-theorem of pyvc/agroup.py): registry.build_index(base, index, key=...,
+    accumulate=True, **predicate) on an ABSTRACT bank list (any number of entries, field values symbolic texts of any
+    length): the loop body is executed for ONE generic entry on all its paths; every path either leaves the
+    accumulator alone or appends the entry (itself or an equal copy) under the key built from its own fields; an entry is included
+    exactly when it satisfies the predicate and every component of its key is non-empty.  The index saved is the
+    frozen accumulator, saved once, under the requested name."""
+    skip_cover = True
+    crosscheck_samples = 300
+    FIELDS = ("country_code", "bank_code", "bic")
+
+    def __init__(self, key, pred=""):
+        self.key = tuple(key.split("+")) if "+" in key else key
+        self.pred = pred
+        self.name = f"registry.build_index(key={self.key!r}, accumulate=True{', primary=True' if pred else ''}) (abstract bank list)"
+
+    def setup(self, I):
+        from pyvc import agroup
+        from pyvc import alist as L
+        agroup.install()
+        self.n = z3.Int("n_base")
+        self.ent = z3.Function("base_entry", z3.IntSort(), L.Elem)
+        self.flen = {k: z3.Function(f"FieldLen_{k}", L.Elem, z3.IntSort()) for k in self.FIELDS}
+        self.fat = {k: z3.Function(f"FieldAt_{k}", L.Elem, z3.IntSort(), z3.IntSort()) for k in self.FIELDS}
+        self.primary = z3.Function("EntryPrimary", L.Elem, z3.BoolSort())
+        I.assumptions.append(self.n >= 0)
+        return {}
+
+    def text(self, I, e, k):
+        from pyvc.values import SFn
+        p = SFn(self.flen[k](e), (lambda i, e=e, k=k: self.fat[k](e, z3.simplify(i) if z3.is_expr(i) else z3.IntVal(i))), f"{k}({e})")
+        p.field = (k, e)
+        I.assumptions.append(self.flen[k](e) >= 0)
+        return p
+
+    def make_element(self, I, e):
+        d = {k: self.text(I, e, k) for k in self.FIELDS}
+        d["primary"] = SBool(self.primary(e))
+        d["name"] = "n"
+        return I.alloc(d)
+
+    def code(self, I, inp):
+        from pyvc import alist as L
+        from schwifty import registry
+        base = L.AList(dict, self.n, lambda j: self.ent(j), name="base")
+        base.make_element = self.make_element
+        self.base = base
+        saved = []
+
+        def get_contract(I2, name):
+            if name != "probe_base":
+                raise Unsupported(f"registry.get({name!r}) inside build_index")
+            return base
+
+        def save_contract(I2, name, data):
+            saved.append((name, data))
+            return data
+        I.contracts["schwifty.registry.get"] = get_contract
+        I.contracts["schwifty.registry.save"] = save_contract        # the writer of registry._registry (import time)
+        kw = {"key": self.key, "accumulate": True}
+        if self.pred:
+            kw[self.pred] = True
+        r = I.call(registry.build_index, ["probe_base", "probe_index"], kw)
+        return ("SAVED", r, list(saved))
+
+    def custom_obligations(self, I, inp, code_paths, cobs):
+        from pyvc import agroup
+        from pyvc import alist as L
+        out = []
+        q = z3.Const("q_entry", L.Elem)
+        keys = self.key if isinstance(self.key, tuple) else (self.key,)
+        for i, (path, o) in enumerate(cobs):
+            pc = path["pc"]
+            if isinstance(o, (T.Escape, T.ExcTag)):
+                out.append((f"path {i}: build_index does not raise ({o!r})", pc, z3.BoolVal(False)))
+                continue
+            _, r, saved = o
+            ok = r is None and len(saved) == 1 and saved[0][0] == "probe_index" and isinstance(saved[0][1], agroup.GroupAcc) \
+                and saved[0][1].frozen and len(saved[0][1].loops) == 1 and saved[0][1].loops[0]["src"] is self.base
+            out.append((f"path {i}: exactly one index is saved, under the requested name: the accumulator of one loop over the base list", pc, z3.BoolVal(ok)))
+            if not ok:
+                continue
+            loop = saved[0][1].loops[0]
+            g = loop["g"]
+            shape = True
+            for pc_rel, key, is_el in loop["cases"]:
+                comps = key if isinstance(self.key, tuple) else (key,)
+                shape = shape and is_el and isinstance(key, tuple) == isinstance(self.key, tuple) and len(comps) == len(keys) and \
+                    all(getattr(c, "field", None) is not None and c.field[0] == k and c.field[1].eq(g) for c, k in zip(comps, keys))
+            out.append((f"path {i}: every append puts the entry (or an equal copy) under the key made of its own {keys} fields "
+                        f"({len(loop['cases'])} appending paths of {loop['n_paths']})", pc, z3.BoolVal(bool(shape))))
+            incl = z3.substitute(z3.Or(*[c[0] for c in loop["cases"]]) if loop["cases"] else z3.BoolVal(False), (g, q))
+            want = z3.And(*[self.flen[k](q) > 0 for k in keys], *([self.primary(q)] if self.pred else []))
+            hyp = [self.flen[k](q) >= 0 for k in self.FIELDS]
+            out.append((f"path {i}: an entry is indexed exactly when every key component is non-empty"
+                        + (" and it is primary" if self.pred else ""), pc + hyp, incl == want))
+        return out
+
+    # bounded native cross-check of the whole statement, grouping meta-theorem included
+    def sample(self, rnd):
+        n = rnd.choice([0, 1, 2, 3, 4, 5, 6])
+        base = [{"country_code": rnd.choice(["", "DE", "FR"]), "bank_code": rnd.choice(["", "1", "2", "10"]),
+                 "bic": rnd.choice(["", "AAAADEFF", "BBBBFRPPXXX"]), "primary": rnd.random() < 0.5, "name": f"n{i}"} for i in range(n)]
+        return {"base": base}
+
+    def native_agree(self, inp):
+        import copy
+        from schwifty import registry
+        base = inp.get("base")
+        if base is None:
+            return True, None, None
+        keys = self.key if isinstance(self.key, tuple) else (self.key,)
+        want = {}
+        for e in base:
+            if all(e[k] for k in keys) and (not self.pred or e[self.pred] is True):
+                want.setdefault(tuple(e[k] for k in keys) if isinstance(self.key, tuple) else e[self.key], []).append(e)
+        snap = copy.deepcopy(base)
+        try:
+            registry.save("probe_base", base)
+            kw = {self.pred: True} if self.pred else {}
+            registry.build_index("probe_base", "probe_index", key=self.key, accumulate=True, **kw)
+            got = registry.get("probe_index")
+            ok = got == want and list(got) == list(want) and type(got) is dict and base == snap
+            return ok, repr(got)[:300], repr(want)[:300]
+        finally:
+            registry._registry.pop("probe_base", None)
+            registry._registry.pop("probe_index", None)
+
+
 # ------------------------------------------------------------------------------------------ bundled registry
 def spec_candidates(group):
     prim = [e for e in group if e["primary"]]
@@ -521,6 +650,8 @@ def main(seed, tier):
         ks.append(4)
         shapes += ["11,11,11,11", "11,8,11,8"]
     specs = [("props.c12", "SelectionProofTask", ()), ("props.c12", "CandidatesProofTask", ())]
+    specs += [("props.c12", "BuildIndexTask", a) for a in (("country_code+bank_code",), ("bic",), ("country_code",),
+                                                           ("country_code+bank_code", "primary"))]
     specs += [("props.c12", "CandidatesTask", (k,)) for k in ks] + [("props.c12", "SelectionTask", (s,)) for s in shapes]
     results = common.run_tasks(specs, seed, tier)
     problems, stats = registry_evaluation()
@@ -541,7 +672,14 @@ def main(seed, tier):
                      "well-formed entries (sort key, filter and map evaluated for one generic entry); that this list is "
                      "'primary entries first, listed order kept' rests on the ASSUMED contract of sorted (stable); the "
                      "same statement is cross-checked on symbolic groups of <= 3 / 4 entries with a modelled stable sort",
-                     "build_index, invertibility and the IBAN-side accessors are evaluated exhaustively on the bundled "
+                     "build_index(accumulate=True) - the form of all three call sites - PROVED for bank lists of any length "
+                     "with symbolic field texts: loop body executed for one generic entry; each entry is appended (itself "
+                     "or an equal copy) under the key of its own fields exactly when every key component is non-empty "
+                     "(and the predicate holds); generalisation to the whole list by the ASSUMED grouping meta-theorem "
+                     "(a loop of guarded appends to an empty defaultdict(list) is the order-preserving grouping; "
+                     "pyvc/agroup.py), cross-checked natively on random lists of <= 6 entries; the accumulate=False form "
+                     "has no call site and is not covered",
+                     "invertibility and the IBAN-side accessors are evaluated exhaustively on the bundled "
                      "registry (22,753 keys), not proved for arbitrary registries",
                      "sorted() is stable and returns a permutation (assumed; modelled as a stable insertion sort)",
                      "registry entries satisfy well_formed (C17): a non-empty BIC is a valid BIC",
